@@ -38,7 +38,9 @@ CLAIMED = {
          "kernel VM over all 304590 pairs), C05_every_component_hashed (the key is the XOR of the words of the atoms present), C05_small_diff (ANY two "
          "positions differing in 1..4 atoms have different keys: every single-component change and more), C05_side_to_move. Tie: engine key vs model "
          "key at every node + on a perturbation sweep; engine keys must change under every single-component perturbation. PARTIAL: full injectivity is "
-         "false by counting and not claimed; pairs differing in >= 5 atoms are covered only by the exploration (distinct identities vs keys).",
+         "false by counting and not claimed; pairs differing in >= 5 atoms are covered only by the exploration (distinct identities vs keys). KNOWN FINDING "
+         "(known_findings.json, corpus/collisions.txt): two pairs of different legal positions DO share a key on the pinned engine (a GF(2) dependency among 14 "
+         "piece-square words); re-verified on every run and printed as KNOWN-FINDING; any other collision among explored positions is a violation.",
          TB + "injectivity beyond 4 atoms is NOT proved (impossible); exploration only.", "Coq proof (finite table check by vm_compute lifted by XOR algebra) + key correspondence + perturbation sweep"),
  "C06": ("Theorems C06_rook/bishop/queen: for every square and EVERY occupancy in N the modelled magic lookup equals the sliding-ray "
          "attack set (finite sweep over all 107648 (square, subset-of-mask) entries by the kernel VM, lifted by proved completeness of the "
